@@ -102,6 +102,25 @@ pub fn for_each_enc_call(tier: Tier, invalid: bool, over: bool, control: bool, f
             }
         }
     }
+    if over {
+        // bodies around 2^16 (where a byte count kept in 16 bits would wrap)
+        for n in (65_500usize..=65_830).step_by(3) {
+            f(ReqVendor { format: 0, data: 0x1234, numeric: 0, msg: vec![0x5A; n] });
+            f(ReqVendor { format: 1, data: 0x0102_0304, numeric: 0, msg: vec![0xA5; n] });
+            f(TraitSpdm { half: Half::Req, secured: false, header: None, data: vec![0x3C; n] });
+            f(TraitControl { half: Half::Resp, header: Some(vec![0, 2]), data: vec![0xC3; n] });
+        }
+    }
+    if invalid {
+        // very long routing entry lists (where an entry count kept in 8 bits would wrap)
+        for n in [11usize, 31, 32, 63, 64, 127, 128, 254, 255, 256, 257, 258, 259, 260, 261, 262, 263, 264, 511, 512, 513, 519, 768, 1024, 65_536, 65_537] {
+            let entries: Vec<[u8; 4]> = (0..n).map(|i| [i as u8, (i >> 8) as u8, 0x55, 0xAA]).collect();
+            f(ReqRoutingUpdate { entries });
+        }
+        for n in [35usize, 63, 64, 255, 256, 257, 286, 287, 288, 512, 65_536] {
+            f(RespMsgTypes { cc: 0, types: vec![0x7E; n] });
+        }
+    }
     // ---- responses: every completion code x enum combination
     for cc in 0..=5u8 {
         for assign in 0..2u8 {
